@@ -1,6 +1,7 @@
 package main
 
 import (
+	"math/bits"
 	"fmt"
 	"time"
 	"go/types"
@@ -158,6 +159,40 @@ func init() {
 	exact["(github.com/ethereum/go-ethereum/common.Address).Hex"] = opaqueString("addr.Hex")
 	exact["(github.com/ethereum/go-ethereum/common.Hash).Hex"] = opaqueString("hash.Hex")
 	exact["(github.com/ethereum/go-ethereum/common.Hash).String"] = opaqueString("hash.String")
+
+	// sort.Slice / sort.SliceStable / sort.SliceIsSorted: the reflection-based swapper is replaced by a built-in closure
+	// that swaps two (concrete-index) elements of the slice; the sorting algorithm itself (stable_func / pdqsort_func of
+	// package sort) runs as real code, forking on the outcomes of the caller's less function.
+	sortSlice := func(target string) func(e *Engine, st *State, fn *ssa.Function, args []Value, retTo *ssa.Call) (Value, bool) {
+		return func(e *Engine, st *State, fn *ssa.Function, args []Value, retTo *ssa.Call) (Value, bool) {
+			x, ok := args[0].(IfaceV)
+			if !ok {
+				return nil, false
+			}
+			sl, ok := x.V.(SliceV)
+			if !ok {
+				return nil, false
+			}
+			tf := fn.Pkg.Func(target)
+			if tf == nil {
+				return nil, false
+			}
+			swap := FuncV{Env: []Value{OpaqueV{"opaque-method:swapper"}, sl}}
+			data := &StructV{F: []Value{args[1], swap}}
+			n := ConstU(uint64(sl.Len), 64)
+			var a []Value
+			switch target {
+			case "stable_func":
+				a = []Value{data, n}
+			case "pdqsort_func":
+				a = []Value{data, ConstU(0, 64), n, ConstU(uint64(bits.Len(uint(sl.Len))), 64)}
+			}
+			e.callClosure(st, FuncV{Fn: tf}, a, func(st *State, res Value) {}, nil)
+			return pendingV, true
+		}
+	}
+	exact["sort.SliceStable"] = sortSlice("stable_func")
+	exact["sort.Slice"] = sortSlice("pdqsort_func")
 
 	api := "zzverif."
 	exact[api+"TempDir"] = opaqueString("tmpdir")
